@@ -12,7 +12,7 @@ POLICIES = ["pct", "starve", "starve", "yield", "yield", "yield", "random", "rr"
 
 def gen_session(rng, quick):
     """returns (workloads, steps, sched, family)"""
-    fam = rng.choice(["same_gtf", "same_gtf", "diff_gtf", "adopt_rebuild", "mixed_flags", "same_basename"])
+    fam = rng.choice(["same_gtf", "same_gtf", "diff_gtf", "adopt_rebuild", "mixed_flags", "same_basename", "shared_genedb_output"])
     n = rng.choice([2, 2, 3] if quick else [2, 2, 3, 4])
     w0 = dict(TINY, seed=rng.randrange(1 << 20))
     w1 = dict(TINY, seed=rng.randrange(1 << 20), genes_per_chr=3)
@@ -36,6 +36,10 @@ def gen_session(rng, quick):
     elif fam == "same_basename":
         workloads = [{"spec": w0, "same_basename_dir": True}, {"spec": w1, "same_basename_dir": True}]
         steps.append({"run": [{"wl": i % 2, "opts": opts(), "out": names[i]} for i in range(n)]})
+    elif fam == "shared_genedb_output":
+        # separate -o folders, one --genedb_output folder for the converted databases, annotations with one file name
+        workloads = [{"spec": w0, "same_basename_dir": True}, {"spec": w1, "same_basename_dir": True}]
+        steps.append({"run": [{"wl": i % 2, "opts": {"extra": ["--genedb_output", "<shared>"]}, "out": names[i]} for i in range(n)]})
     elif fam == "mixed_flags":
         steps.append({"run": [{"wl": 0, "opts": opts(), "out": names[i]} for i in range(n)]})
     else:
